@@ -20,10 +20,11 @@ vars == <<tbl, ever, hasIndex, nextKey, steps, last, hist>>
 view == <<tbl, ever, hasIndex, nextKey, steps, last>>
 
 Words == 1..4
-PoolDoc ==
-  CASE PoolId = 1 -> << <<1, 2>>, <<2, 1>>, <<1, 1, 2>>, <<>>, NullDoc, <<3, 4, 1, 2>>, <<2>>, <<1, 3, 2>> >>
-    [] PoolId = 2 -> << <<4>>, <<1, 2, 3>>, <<3, 2, 1>>, NullDoc, <<2, 2, 2, 1>>, <<>>, <<1, 4, 2>>, <<2, 3>> >>
-    [] PoolId = 3 -> << <<1>>, <<1, 2, 1, 2>>, <<2, 1, 2>>, <<3>>, <<>>, <<1, 2>>, NullDoc, <<4, 4>> >>
+PoolDocOf(p) ==
+  CASE p = 1 -> << <<1, 2>>, <<2, 1>>, <<1, 1, 2>>, <<>>, NullDoc, <<3, 4, 1, 2>>, <<2>>, <<1, 3, 2>> >>
+    [] p = 2 -> << <<4>>, <<1, 2, 3>>, <<3, 2, 1>>, NullDoc, <<2, 2, 2, 1>>, <<>>, <<1, 4, 2>>, <<2, 3>> >>
+    [] p = 3 -> << <<1>>, <<1, 2, 1, 2>>, <<2, 1, 2>>, <<3>>, <<>>, <<1, 2>>, NullDoc, <<4, 4>> >>
+PoolDoc == PoolDocOf(PoolId)
 Row(k, ix) == [key |-> k, doc |-> PoolDoc[k], indexed |-> ix]
 ASSUME MaxKeys <= 8
 
@@ -146,5 +147,5 @@ Discriminates ==
 (* ---- scenario generation ---- *)
 GenPrint == (steps = MaxSteps) => PrintT(<<"SCN", ToJson(hist)>>)
 QryPrint == (steps = 0 /\ Cardinality(tbl) = 3) => PrintT(<<"QRY", ToJson(SetToSeq(AllQueries))>>)
-PoolPrint == (steps = 0 /\ Cardinality(tbl) = 3) => PrintT(<<"POOL", ToJson([k \in 1..MaxKeys |-> <<k, PoolDoc[k]>>])>>)
+PoolPrint == (steps = 0 /\ Cardinality(tbl) = 3) => PrintT(<<"POOL", ToJson([p \in 1..3 |-> [k \in 1..8 |-> <<k, PoolDocOf(p)[k]>>]])>>)
 =============================================================================
